@@ -162,6 +162,20 @@ func c09Frame(stack string) string {
 	return strings.TrimPrefix(m[1], "github.com/ipld/")
 }
 
+// c09ClassFamily names what kind of input it was (the part of the class before the container kind):
+// a known allocation defect is known for the input families that reach it, not for every input.
+func c09ClassFamily(class string) string {
+	if i := strings.Index(class, ":"); i > 0 {
+		class = class[:i]
+	}
+	switch class {
+	case "flip", "overwrite", "splice", "random-tail", "random", "truncate",
+		"fixture", "fixture-flip", "fixture-truncate", "fuzz-corpus", "fuzz-corpus-flip", "fuzz-corpus-truncate":
+		return "random-mutation" // where a random mutation lands differs from seed to seed
+	}
+	return class
+}
+
 var c09SlugRe = regexp.MustCompile(`[^a-z0-9]+`)
 
 func c09Slug(s string) string {
@@ -424,6 +438,10 @@ func runC09(t *mon.T, raw json.RawMessage) {
 		switch {
 		case a.timedOut:
 			t.Inconclusive("wall-clock timeout in %s on class %s (batch %s/%d call %d)", call.EP, in.Class, d.Kind, d.Batch, last)
+		case found && strings.HasPrefix(class, "hang-"):
+			t.Cover("death:hang")
+			t.ViolateD("hang/"+call.EP+"/all-goroutines-blocked", c09Detail(in, call, extra),
+				"%s does not terminate: every goroutine of the call is blocked on a channel or mutex with nothing left to wake it (input class %s, %s)", call.EP, in.Class, in.Opts)
 		case found:
 			t.Cover("death:" + class)
 			t.ViolateD("fatal/"+class+"/"+frame, c09Detail(in, call, extra),
@@ -489,7 +507,7 @@ func runC09(t *mon.T, raw json.RawMessage) {
 				"%s delivered more items than the %d-byte input has bytes (class %s)", call.EP, len(in.Data), in.Class)
 		}
 		if res.Alloc > bound {
-			key := "alloc-exceeds-bound/" + res.Site
+			key := "alloc-exceeds-bound/" + res.Site + "/" + c09ClassFamily(in.Class)
 			if res.Site == "" {
 				key = call.EP + "/" + in.Class + "/alloc-exceeds-bound"
 			}
